@@ -14,6 +14,9 @@ def run(ctx):
     ctx.rule("R10-2", "expand_env acts only on tokens whose tag is not a single quote (E-TAG, class DQ)")
     ctx.rule("R10-4", "`$NAME` yields the CURRENT value: the exported environment is read before the shell-local map "
                       "(see C09 R09-7)")
+    ctx.rule("R10-5", "the gate (env_in_token) and the rewriter (expand_one_env) may disagree on what a reference is: the "
+                      "loop that re-applies the rewriter leaves when a rewrite changed nothing (explicit comparison of "
+                      "the new text with the old on every cycle)")
     ctx.rule("R10-3", "$? formats previous_status, $$ formats getpid()")
     for crate in ctx.crates:
         b = crate.fn("shell::expand_env")
@@ -24,6 +27,7 @@ def run(ctx):
         ctx.require(len(scanners) >= 2, "R10-1", "R10-1|scanners", "fewer than two `$` scanner functions identified "
                     "(%s)" % sorted(scanners))
         rescan_rule(ctx, crate, b, scanners)
+        fixpoint_rule(ctx, crate, b, scanners)
         res = etag.run_sites(ctx, "R10-2", crate, fn_filter=lambda p: p == "shell::expand_env")
         ctx.floor("R10-2", crate, "inspections in expand_env", len(res), 1)
         c03.dollar_rule(ctx, crate)
@@ -55,3 +59,25 @@ def rescan_rule(ctx, crate, b, scanners):
                       "variable never terminates (X='a$X'; echo $X)")
     if not edges:
         ctx.ob("R10-1", b.path, "no environment-derived text reaches a `$` scanner of the pass", True, crate=crate.kind)
+
+
+def fixpoint_rule(ctx, crate, b, scanners):
+    from .c05 import fixpoint_guarded
+    from ..mir import last_seg
+    n = 0
+    for h, blocks in sorted(b.loops().items()):
+        exits = [(x, y) for x in sorted(blocks) for y in b.succs[x] if y not in blocks]
+        gate = False
+        for x, y in exits:
+            for tgt, atom, val in b.switch_edges(x):
+                if tgt == y and any(sub[0] == "call" and sub[1] in scanners for sub in mir.subexprs(atom)):
+                    gate = True
+        if not gate:
+            continue
+        n += 1
+        ok, detail = fixpoint_guarded(b, h, blocks, exits)
+        ctx.ob("R10-5", b.path, "the rewrite loop leaves when expand_one_env changed nothing", ok,
+               key="R10-5|%s|fixpoint" % b.path, where=b.loc(h), crate=crate.kind,
+               detail=detail if not ok else None)
+    ctx.require(n == 1, "R10-5", "R10-5|%s|loop" % b.path, "expected one loop gated by a `$` scanner in expand_env, found %d" % n,
+                b.path)
